@@ -631,6 +631,24 @@ pub fn gen_driver(prop: &str, rng: &mut Rng, sh: &mut Shards, out: &str, thoroug
             }
         }
     }
+    // programs of more than 65536 instructions: labels and procedures whose index does not fit 16 bits
+    if prop == "C08" {
+        let big: Vec<Vec<Item>> = vec![
+            // forward over the filler
+            vec![Item::Label("start".into()), Item::Ins(Ins::Jcc { mn: "jmp", label: "far_A".into(), target: 0 }), Item::Ins(Ins::Mov { w: 16, dst: Opnd::Reg16("bx"), src: Opnd::Imm(0x0BAD) }),
+                 Item::Fill(65535), Item::Label("far_A".into()), Item::Ins(Ins::Mov { w: 16, dst: Opnd::Reg16("ax"), src: Opnd::Imm(1) }), Item::Ins(Ins::Print { what: PrintWhat::Reg })],
+            // start itself beyond index 65536, a call back to a procedure before the filler and a backward loop
+            vec![Item::Proc { name: "near_p".into(), body: vec![Item::Ins(Ins::UnArith { op: "inc", w: 16, dst: Opnd::Reg16("dx") })] }, Item::Fill(65600),
+                 Item::Label("start".into()), Item::Ins(Ins::Mov { w: 16, dst: Opnd::Reg16("cx"), src: Opnd::Imm(3) }), Item::Label("again_Q".into()), Item::Ins(Ins::Call { name: "near_p".into(), target: 0 }),
+                 Item::Ins(Ins::Jcc { mn: "loop", label: "again_Q".into(), target: 0 }), Item::Ins(Ins::Print { what: PrintWhat::Reg })],
+            // a procedure beyond index 65536 called from the beginning
+            vec![Item::Label("start".into()), Item::Ins(Ins::Call { name: "far_p".into(), target: 0 }), Item::Ins(Ins::Print { what: PrintWhat::Reg }), Item::Ins(Ins::Ctl { op: "hlt" }),
+                 Item::Fill(65540), Item::Proc { name: "far_p".into(), body: vec![Item::Ins(Ins::UnArith { op: "inc", w: 16, dst: Opnd::Reg16("si") })] }],
+        ];
+        for (i, s) in big.iter().enumerate() {
+            progs.push((Program { data: Vec::new(), items: s.clone(), interp: false, stdin: Vec::new(), note: format!("large-{}", i) }, Layout::plain()));
+        }
+    }
     run_batch(&bin, &dir, &progs, rng, sh, &format!("{}-runs", prop), 16);
     if std::env::var("VERIF_KEEP_SRC").is_err() {
         let _ = std::fs::remove_dir_all(&dir);
